@@ -399,6 +399,9 @@ func registerAPIModels() {
 	apiModels["verifNow"] = func(it *Interp, fr *frame, fn *ssa.Function, args []Value) Value {
 		return models["time.Now"](it, fr, fn, nil)
 	}
+	apiModels["verifRepeatNative"] = func(it *Interp, fr *frame, fn *ssa.Function, args []Value) Value {
+		return mkInt(1)
+	}
 	apiModels["verifDebug"] = func(it *Interp, fr *frame, fn *ssa.Function, args []Value) Value {
 		if os.Getenv("SYMGO_DEBUG") != "" {
 			fmt.Fprintf(os.Stderr, "DEBUG %s = %s\n", argStr(args[0]), observeString(args[1].(Iface).v))
